@@ -171,8 +171,12 @@ class StoreRun:
         edges = lay["edges"]
         if isinstance(edges, str):
             # compact form "uniform:<nbins>:<width>" for one chromosome (large bin tables)
-            _, nb, w = edges.split(":")
-            edges = [[k * int(w) for k in range(int(nb) + 1)]]
+            # (comma-separated: one entry per chromosome)
+            out_ = []
+            for part in edges.split(","):
+                _, nb, w = part.split(":")
+                out_.append([k * int(w) for k in range(int(nb) + 1)])
+            edges = out_
         bm = bins_frame(names, edges)
         lengths = [e[-1] for e in edges]
         return names, lengths, bm
@@ -1717,9 +1721,104 @@ def _op_zoomify(self, op):
     return exc, tracer
 
 
+def _op_legacyzoom(self, op):
+    """legacy_zoomify / `cooler zoomify --legacy`: integer-labelled zoom levels n..0; level n is a
+    copy of the base, level n-d the coarsening of the base by 2**d (whatever chain produced it).
+    The output is examined directly and removed again: the link-tree model does not hold it."""
+    import math
+
+    import cooler
+    from . import oracles
+
+    s = op["src"]
+    if s["file"] not in self.fs.files:
+        raise Skip("source file missing")
+    sn = self.fs.lookup(s["file"], s["path"])
+    if sn is None or not isinstance(sn.coll, Coll):
+        raise Skip("source missing")
+    src = sn.coll
+    b, _amb = src.binsize()
+    if b is None:
+        raise Skip("legacy zoomify needs a fixed bin size")
+    n_tiles = math.ceil(sum(src.lengths) / (256 * int(b)))
+    n_zooms = int(math.ceil(math.log2(n_tiles))) if n_tiles > 0 else 0
+    out = os.path.join(self.S, "legacy_%d.mcool" % self.opidx)
+    suri = uri_of(s["path"], self.fpath(s["file"]))
+    nproc = int(op.get("nproc", 1))
+    if op.get("cli"):
+        from click.testing import CliRunner
+        from cooler.cli import cli
+
+        def call():
+            r = CliRunner().invoke(cli, ["zoomify", "--legacy", "-p", str(nproc), "-c", str(op["chunksize"]),
+                                         "-o", out, suri], catch_exceptions=False)
+            if r.exit_code != 0:
+                raise RuntimeError("cli exit %s: %s" % (r.exit_code, (r.output or "")[-200:]))
+    else:
+        from cooler._reduce import legacy_zoomify
+        from cooler.parallel import lock as _lock
+
+        def call():
+            legacy_zoomify(suri, out, nproc, op["chunksize"], lock=_lock)
+    self._arm_open_fault(None)
+    self._arm_snapshots(None)
+    nconf0 = len(self.sim.flock_conflicts)
+    exc, tracer = self._call(call, None)
+    try:
+        if len(self.sim.flock_conflicts) > nconf0:
+            self.violate("C09", "O-sched-flock",
+                         ["simulated HDF5 file-lock conflict: %r" % (self.sim.flock_conflicts[nconf0],)])
+        if exc is not None and exc[0] in ("SimDeadlock", "StepLimit"):
+            self.violate("C09", "O-sched-deadlock", ["%s: %s" % exc])
+            self.sim.deadlock = None
+            return exc, tracer
+        if exc is not None:
+            self.violate("C09", "op-raised", ["legacy zoomify raised %s: %s" % exc])
+            return exc, tracer
+        self.stat("legacy-zoomify-levels", n_zooms + 1)
+        errs = []
+        with h5py.File(out, "r") as f:
+            have = sorted(f.keys())
+            attrs = {k: (int(v) if np.ndim(v) == 0 else v) for k, v in f.attrs.items()}
+        want = sorted(str(i) for i in range(n_zooms + 1))
+        if have != want:
+            errs.append("zoom levels %r, expected %r" % (have, want))
+        for d in range(n_zooms + 1):
+            lvl = str(n_zooms - d)
+            if lvl not in have:
+                continue
+            if d == 0:
+                exp = src.copy()
+            else:
+                exp, ok = coarsen_model(src.copy(), 2 ** d, ["count"], {})
+                if not ok:
+                    raise Skip("overflowing zoom level")
+                exp.pixels = exp.pixels[["bin1_id", "bin2_id", "count"]]
+            if attrs.get(lvl) != int(b) * 2 ** d:
+                errs.append("root attribute %r = %r, expected bin size %d" % (lvl, attrs.get(lvl), int(b) * 2 ** d))
+            if d > 0:
+                exp.metadata = None
+            e1 = oracles.check_read(out + "::/" + lvl, exp, "level %s (base coarsened by %d): " % (lvl, 2 ** d), deep=True)
+            if d > 0:
+                e1 = [m for m in e1 if "metadata" not in m]
+            errs += e1[:3]
+            errs += oracles.check_struct(out, "/" + lvl, "level %s: " % lvl)[:3]
+        if attrs.get("max-zoom") != n_zooms:
+            errs.append("max-zoom %r, expected %d" % (attrs.get("max-zoom"), n_zooms))
+        if errs:
+            self.violate("C09", "O-read", errs[:6])
+        elif nproc > 1:
+            self.stat("pooled-legacy-zoomify-ok")
+        return exc, tracer
+    finally:
+        if os.path.exists(out):
+            os.remove(out)
+
+
 StoreRun.op_merge = _op_merge
 StoreRun.op_coarsen = _op_coarsen
 StoreRun.op_zoomify = _op_zoomify
+StoreRun.op_legacyzoom = _op_legacyzoom
 StoreRun._finish_producer = _finish_producer
 
 
